@@ -32,6 +32,7 @@ class Hist:
         self.hidden = None
         self.used_builtin_names = set()
         self.nullvars = []
+        self.fnsn = []       # (name, arity) of the same-body functions
 
     BUILTIN_LIKE = ["last", "first", "len", "get", "str", "sort", "time", "rest", "chars", "round"]   # (not push / puts: the probes call them)
 
@@ -69,6 +70,27 @@ class Hist:
         r = rnd.random()
         if r < 0.10:
             return "raw", rnd.choice(UNPARSABLE), None
+        if rnd.random() < 0.16:
+            # functions whose bodies are the same text but whose parameter lists differ in length (every REPL line is
+            # line 1, so such bodies compile to the same code), and calls of them with the right number of arguments
+            bodies = [[expr(ident("a"))], [expr(bin_("+", ident("a"), I(1)))], [expr(I(7))], [let("t", ident("a")), expr(ident("t"))]]
+            if self.fnsn and rnd.random() < 0.5:
+                name, ar, _ = self.fnsn[-1] if rnd.random() < 0.6 else rnd.choice(self.fnsn)
+                return "stmts", [obs(call(name, *[I(rnd.randint(1, 9)) for _ in range(ar)]))], None
+            name = self.fresh("h")
+            if self.fnsn and rnd.random() < 0.7:
+                _, ar0, bi = rnd.choice(self.fnsn)          # a twin: the same body under a parameter list of another length
+                ar = rnd.choice([a for a in (1, 2, 3) if a != ar0])
+            else:
+                ar, bi = rnd.choice([1, 2, 2, 3]), rnd.randrange(len(bodies))
+            self.fnsn.append((name, ar, bi))
+            return "stmts", [fndef(name, ["a", "b", "c"][:ar], bodies[bi])], None
+        if rnd.random() < 0.08:
+            # a line that is just a value - also the falsey ones: the REPL shows it as a script's last statement would
+            v = rnd.choice([I(0), lit(vbool(False)), lit(vstr("")), arr(), map_(), lit(vbool(True)), I(7), lit(vstr("s")), arr(I(0)),
+                            bin_("-", self.e_int(1), I(0)), bin_("<", self.e_int(1), self.e_int(1)), bin_("==", I(1), I(2)),
+                            bin_("*", self.e_int(1), I(0))])
+            return "stmts", [expr(v)], None
         if r < 0.22:
             # rejected by the compiler; half of them would redefine an existing name
             name = rnd.choice(self.vars) if self.vars and rnd.random() < 0.6 else self.fresh("v")
@@ -251,14 +273,41 @@ def run(rep, tier, seed):
             else:
                 cls = "parse" if "parse errors" in rep_err else ("compile" if "compile error" in rep_err else
                                                                  ("rterror" if "Runtime error" in rep_err else "ok"))
-                cur = {"class": cls, "stderr": rep_err[:200]}
+                cur = {"class": cls, "stderr": rep_err[:200], "echo": rep_out}
         for (kind, body, _), l in zip(s["lines"], lines):
             l["line"] = {"kind": "unparsable"} if kind == "raw" else {"kind": "stmts", "b": render_ln(body)}
         if len(lines) != len(s["lines"]):
             lines = lines[:len(s["lines"])]
             s["short"] = True
         s["obs_lines"] = lines
-        recs.append({"id": s["id"], "lines": [{"line": l["line"], "class": l["class"], "obs": l["obs"]} for l in lines if "line" in l],
+    # what each accepted line printed, against the same line at the end of a script made of the lines accepted before it
+    # (compared up to the session's first line that fails at run time: a script cannot stop half-way through a line and go on)
+    from .. import e2e
+    jobs = []
+    for s in sessions:
+        accepted = []
+        for (kind, body, _), l in zip(s["lines"], s["obs_lines"]):
+            if kind == "raw" or l["class"] in ("parse", "compile"):
+                continue
+            if l["class"] != "ok":
+                break
+            t = line_text(body)
+            l["script_jobs"] = (len(jobs), len(jobs) + 1)
+            jobs.append((["-c", "\n".join(accepted + [t]) + "\n"], b""))
+            jobs.append((["-c", "\n".join(accepted + ["null"]) + "\n"], b""))
+            accepted.append(t)
+    res = e2e.run_many(jobs)
+    for s in sessions:
+        for l in s["obs_lines"]:
+            l["script"] = [-1]
+            if "script_jobs" in l:
+                a, b = res[l["script_jobs"][0]], res[l["script_jobs"][1]]
+                if a["how"] == "exit" and b["how"] == "exit" and a["out"].startswith(b["out"]) and not a["err"] and not b["err"]:
+                    l["script"] = [ord(c) for c in a["out"][len(b["out"]):].decode("utf8", "replace")]
+                    l["echo_cp"] = [ord(c) for c in l["echo"]]
+        lines = s["obs_lines"]
+        recs.append({"id": s["id"], "lines": [{"line": l["line"], "class": l["class"], "obs": l["obs"],
+                                               "echo": l.get("echo_cp", [-1]), "script": l["script"]} for l in lines if "line" in l],
                      "complete": not s.get("short", False) and s["rc"] == 0})
     verdicts, tres = core.tlc_validate("ReplTrace", recs, timeout=2400)
     rep.add_tlc(tres)
@@ -274,6 +323,8 @@ def run(rep, tier, seed):
             kind = s["lines"][v["at"] - 1][0]
             prev_rejected = v["at"] > 1 and s["obs_lines"][v["at"] - 2]["class"] in ("parse", "compile")
             sig = "repl %s: expected=%s got=%s%s" % (v["why"], v["want"], l["class"], " (after a rejected line)" if prev_rejected else "")
+            if v["why"] == "output":
+                sig = "repl output of a line differs from the script's (%s)" % ("nothing shown" if not l.get("echo", "").strip() else "other text")
             rep.disagree(sig, {"session": s["text"], "line_index": v["at"], "stdout": s["out"][-600:], "stderr": s["err"][-600:]})
     rep.cov["distinct_nontrivial"] = len({s["text"] for s in sessions if len(s["lines"]) > 2})
     rep.cov["rule"] = ("random sessions of 1-12 lines from 11 line kinds (unparsable, compiler-rejected with and without redefinition of an "
